@@ -18,6 +18,17 @@ fn ipv6_case(proto: Option<u8>, m: usize, n: usize) {
         Some(p) => buf[6] = p,
         None => kani::assume(buf[6] != 58 && buf[6] != 6 && buf[6] != 17),
     }
+    // addresses: octets 0, 14 and 15 of source and destination symbolic, the other 13 octets
+    // zero (keeps the checksum miter within reach: measured 500 s timeouts with 32 symbolic
+    // address octets); enough to tell source, destination and solicited target apart
+    let mut z = 8;
+    while z < 40 {
+        let o = (z - 8) % 16;
+        if o != 0 && o != 14 && o != 15 {
+            buf[z] = 0;
+        }
+        z += 1;
+    }
     let ip_req = Ipv6Packet::new(&buf[..40 + m]).unwrap();
     let a4 = any_ip4();
     let a6 = any_ip6();
@@ -120,7 +131,7 @@ fn verif_known_c02_echo() -> bool {
 //# tier: quick
 //# encodes: layer_3::ipv6::repl
 //# encodes: pnet_packet checksum helpers (icmpv6::checksum, tcp::ipv6_checksum, udp::ipv6_checksum)
-//# bounds: 40-byte IPv6 request header fully symbolic (version, payload length, addresses free), next header = TCP, 20 transport bytes in the request; layer-4 reply of 20 arbitrary bytes or silence (ICMPv6: echo-style reply, or type 136 + solicited target); self-IP list absent or {a4,a6} symbolic; deny list absent or {d6} symbolic
+//# bounds: 40-byte IPv6 request header symbolic (version, traffic class, flow label, payload length, hop limit free; source and destination address: octets 0, 14, 15 symbolic, others zero), next header = TCP, 20 transport bytes in the request; layer-4 reply of 20 arbitrary bytes or silence (ICMPv6: echo-style reply, or type 136 + solicited target); self-IP list absent or {a4,a6} symbolic; deny list absent or {d6} symbolic
 //# stubs: layer_4::{icmpv6,tcp,udp}::repl -> None or a transport packet of 20 arbitrary bytes (UDP: length field = 20; ICMPv6 NA: the returned target belongs to the self-IP list when one is configured - lemma c05_nd_*)
 //# out: extension headers (not parsed by the implementation); other reply lengths
 //# known: c02.icmpv6_echo_foreign_destination
@@ -143,7 +154,7 @@ fn c04_ipv6_tcp_20() {
 //# tier: thorough
 //# encodes: layer_3::ipv6::repl
 //# encodes: pnet_packet checksum helpers (icmpv6::checksum, tcp::ipv6_checksum, udp::ipv6_checksum)
-//# bounds: 40-byte IPv6 request header fully symbolic (version, payload length, addresses free), next header = TCP, 21 transport bytes in the request; layer-4 reply of 23 arbitrary bytes or silence (ICMPv6: echo-style reply, or type 136 + solicited target); self-IP list absent or {a4,a6} symbolic; deny list absent or {d6} symbolic
+//# bounds: 40-byte IPv6 request header symbolic (version, traffic class, flow label, payload length, hop limit free; source and destination address: octets 0, 14, 15 symbolic, others zero), next header = TCP, 21 transport bytes in the request; layer-4 reply of 23 arbitrary bytes or silence (ICMPv6: echo-style reply, or type 136 + solicited target); self-IP list absent or {a4,a6} symbolic; deny list absent or {d6} symbolic
 //# stubs: layer_4::{icmpv6,tcp,udp}::repl -> None or a transport packet of 23 arbitrary bytes (UDP: length field = 23; ICMPv6 NA: the returned target belongs to the self-IP list when one is configured - lemma c05_nd_*)
 //# out: extension headers (not parsed by the implementation); other reply lengths
 //# known: c02.icmpv6_echo_foreign_destination
@@ -163,7 +174,7 @@ fn c04_ipv6_tcp_23() {
 //# tier: quick
 //# encodes: layer_3::ipv6::repl
 //# encodes: pnet_packet checksum helpers (icmpv6::checksum, tcp::ipv6_checksum, udp::ipv6_checksum)
-//# bounds: 40-byte IPv6 request header fully symbolic (version, payload length, addresses free), next header = UDP, 8 transport bytes in the request; layer-4 reply of 9 arbitrary bytes or silence (ICMPv6: echo-style reply, or type 136 + solicited target); self-IP list absent or {a4,a6} symbolic; deny list absent or {d6} symbolic
+//# bounds: 40-byte IPv6 request header symbolic (version, traffic class, flow label, payload length, hop limit free; source and destination address: octets 0, 14, 15 symbolic, others zero), next header = UDP, 8 transport bytes in the request; layer-4 reply of 9 arbitrary bytes or silence (ICMPv6: echo-style reply, or type 136 + solicited target); self-IP list absent or {a4,a6} symbolic; deny list absent or {d6} symbolic
 //# stubs: layer_4::{icmpv6,tcp,udp}::repl -> None or a transport packet of 9 arbitrary bytes (UDP: length field = 9; ICMPv6 NA: the returned target belongs to the self-IP list when one is configured - lemma c05_nd_*)
 //# out: extension headers (not parsed by the implementation); other reply lengths
 //# known: c02.icmpv6_echo_foreign_destination
@@ -184,7 +195,7 @@ fn c04_ipv6_udp_9() {
 //# tier: thorough
 //# encodes: layer_3::ipv6::repl
 //# encodes: pnet_packet checksum helpers (icmpv6::checksum, tcp::ipv6_checksum, udp::ipv6_checksum)
-//# bounds: 40-byte IPv6 request header fully symbolic (version, payload length, addresses free), next header = UDP, 10 transport bytes in the request; layer-4 reply of 12 arbitrary bytes or silence (ICMPv6: echo-style reply, or type 136 + solicited target); self-IP list absent or {a4,a6} symbolic; deny list absent or {d6} symbolic
+//# bounds: 40-byte IPv6 request header symbolic (version, traffic class, flow label, payload length, hop limit free; source and destination address: octets 0, 14, 15 symbolic, others zero), next header = UDP, 10 transport bytes in the request; layer-4 reply of 12 arbitrary bytes or silence (ICMPv6: echo-style reply, or type 136 + solicited target); self-IP list absent or {a4,a6} symbolic; deny list absent or {d6} symbolic
 //# stubs: layer_4::{icmpv6,tcp,udp}::repl -> None or a transport packet of 12 arbitrary bytes (UDP: length field = 12; ICMPv6 NA: the returned target belongs to the self-IP list when one is configured - lemma c05_nd_*)
 //# out: extension headers (not parsed by the implementation); other reply lengths
 //# known: c02.icmpv6_echo_foreign_destination
@@ -204,7 +215,7 @@ fn c04_ipv6_udp_12() {
 //# tier: quick
 //# encodes: layer_3::ipv6::repl
 //# encodes: pnet_packet checksum helpers (icmpv6::checksum, tcp::ipv6_checksum, udp::ipv6_checksum)
-//# bounds: 40-byte IPv6 request header fully symbolic (version, payload length, addresses free), next header = ICMPv6, 8 transport bytes in the request; layer-4 reply of 8 arbitrary bytes or silence (ICMPv6: echo-style reply, or type 136 + solicited target); self-IP list absent or {a4,a6} symbolic; deny list absent or {d6} symbolic
+//# bounds: 40-byte IPv6 request header symbolic (version, traffic class, flow label, payload length, hop limit free; source and destination address: octets 0, 14, 15 symbolic, others zero), next header = ICMPv6, 8 transport bytes in the request; layer-4 reply of 8 arbitrary bytes or silence (ICMPv6: echo-style reply, or type 136 + solicited target); self-IP list absent or {a4,a6} symbolic; deny list absent or {d6} symbolic
 //# stubs: layer_4::{icmpv6,tcp,udp}::repl -> None or a transport packet of 8 arbitrary bytes (UDP: length field = 8; ICMPv6 NA: the returned target belongs to the self-IP list when one is configured - lemma c05_nd_*)
 //# out: extension headers (not parsed by the implementation); other reply lengths
 //# known: c02.icmpv6_echo_foreign_destination
@@ -226,7 +237,7 @@ fn c04_ipv6_icmp_8() {
 //# tier: thorough
 //# encodes: layer_3::ipv6::repl
 //# encodes: pnet_packet checksum helpers (icmpv6::checksum, tcp::ipv6_checksum, udp::ipv6_checksum)
-//# bounds: 40-byte IPv6 request header fully symbolic (version, payload length, addresses free), next header = ICMPv6, 24 transport bytes in the request; layer-4 reply of 33 arbitrary bytes or silence (ICMPv6: echo-style reply, or type 136 + solicited target); self-IP list absent or {a4,a6} symbolic; deny list absent or {d6} symbolic
+//# bounds: 40-byte IPv6 request header symbolic (version, traffic class, flow label, payload length, hop limit free; source and destination address: octets 0, 14, 15 symbolic, others zero), next header = ICMPv6, 24 transport bytes in the request; layer-4 reply of 33 arbitrary bytes or silence (ICMPv6: echo-style reply, or type 136 + solicited target); self-IP list absent or {a4,a6} symbolic; deny list absent or {d6} symbolic
 //# stubs: layer_4::{icmpv6,tcp,udp}::repl -> None or a transport packet of 33 arbitrary bytes (UDP: length field = 33; ICMPv6 NA: the returned target belongs to the self-IP list when one is configured - lemma c05_nd_*)
 //# out: extension headers (not parsed by the implementation); other reply lengths
 //# known: c02.icmpv6_echo_foreign_destination
@@ -247,7 +258,7 @@ fn c04_ipv6_icmp_33() {
 //# tier: quick
 //# encodes: layer_3::ipv6::repl
 //# encodes: pnet_packet checksum helpers (icmpv6::checksum, tcp::ipv6_checksum, udp::ipv6_checksum)
-//# bounds: 40-byte IPv6 request header fully symbolic (version, payload length, addresses free), next header = any next header outside {58,6,17}, 4 transport bytes in the request; layer-4 reply of 8 arbitrary bytes or silence (ICMPv6: echo-style reply, or type 136 + solicited target); self-IP list absent or {a4,a6} symbolic; deny list absent or {d6} symbolic
+//# bounds: 40-byte IPv6 request header symbolic (version, traffic class, flow label, payload length, hop limit free; source and destination address: octets 0, 14, 15 symbolic, others zero), next header = any next header outside {58,6,17}, 4 transport bytes in the request; layer-4 reply of 8 arbitrary bytes or silence (ICMPv6: echo-style reply, or type 136 + solicited target); self-IP list absent or {a4,a6} symbolic; deny list absent or {d6} symbolic
 //# stubs: layer_4::{icmpv6,tcp,udp}::repl -> None or a transport packet of 8 arbitrary bytes (UDP: length field = 8; ICMPv6 NA: the returned target belongs to the self-IP list when one is configured - lemma c05_nd_*)
 //# out: extension headers (not parsed by the implementation); other reply lengths
 //# known: c02.icmpv6_echo_foreign_destination
@@ -267,7 +278,7 @@ fn c02_ipv6_other_proto() {
 //# tier: thorough
 //# encodes: layer_3::ipv6::repl
 //# encodes: pnet_packet checksum helpers (icmpv6::checksum, tcp::ipv6_checksum, udp::ipv6_checksum)
-//# bounds: 40-byte IPv6 request header fully symbolic (version, payload length, addresses free), next header = TCP, 19 transport bytes in the request; layer-4 reply of 20 arbitrary bytes or silence (ICMPv6: echo-style reply, or type 136 + solicited target); self-IP list absent or {a4,a6} symbolic; deny list absent or {d6} symbolic
+//# bounds: 40-byte IPv6 request header symbolic (version, traffic class, flow label, payload length, hop limit free; source and destination address: octets 0, 14, 15 symbolic, others zero), next header = TCP, 19 transport bytes in the request; layer-4 reply of 20 arbitrary bytes or silence (ICMPv6: echo-style reply, or type 136 + solicited target); self-IP list absent or {a4,a6} symbolic; deny list absent or {d6} symbolic
 //# stubs: layer_4::{icmpv6,tcp,udp}::repl -> None or a transport packet of 20 arbitrary bytes (UDP: length field = 20; ICMPv6 NA: the returned target belongs to the self-IP list when one is configured - lemma c05_nd_*)
 //# out: extension headers (not parsed by the implementation); other reply lengths
 //# known: c02.icmpv6_echo_foreign_destination
@@ -287,7 +298,7 @@ fn c01_ipv6_tcp_short() {
 //# tier: thorough
 //# encodes: layer_3::ipv6::repl
 //# encodes: pnet_packet checksum helpers (icmpv6::checksum, tcp::ipv6_checksum, udp::ipv6_checksum)
-//# bounds: 40-byte IPv6 request header fully symbolic (version, payload length, addresses free), next header = UDP, 7 transport bytes in the request; layer-4 reply of 8 arbitrary bytes or silence (ICMPv6: echo-style reply, or type 136 + solicited target); self-IP list absent or {a4,a6} symbolic; deny list absent or {d6} symbolic
+//# bounds: 40-byte IPv6 request header symbolic (version, traffic class, flow label, payload length, hop limit free; source and destination address: octets 0, 14, 15 symbolic, others zero), next header = UDP, 7 transport bytes in the request; layer-4 reply of 8 arbitrary bytes or silence (ICMPv6: echo-style reply, or type 136 + solicited target); self-IP list absent or {a4,a6} symbolic; deny list absent or {d6} symbolic
 //# stubs: layer_4::{icmpv6,tcp,udp}::repl -> None or a transport packet of 8 arbitrary bytes (UDP: length field = 8; ICMPv6 NA: the returned target belongs to the self-IP list when one is configured - lemma c05_nd_*)
 //# out: extension headers (not parsed by the implementation); other reply lengths
 //# known: c02.icmpv6_echo_foreign_destination
@@ -307,7 +318,7 @@ fn c01_ipv6_udp_short() {
 //# tier: quick
 //# encodes: layer_3::ipv6::repl
 //# encodes: pnet_packet checksum helpers (icmpv6::checksum, tcp::ipv6_checksum, udp::ipv6_checksum)
-//# bounds: 40-byte IPv6 request header fully symbolic (version, payload length, addresses free), next header = ICMPv6, 3 transport bytes in the request; layer-4 reply of 8 arbitrary bytes or silence (ICMPv6: echo-style reply, or type 136 + solicited target); self-IP list absent or {a4,a6} symbolic; deny list absent or {d6} symbolic
+//# bounds: 40-byte IPv6 request header symbolic (version, traffic class, flow label, payload length, hop limit free; source and destination address: octets 0, 14, 15 symbolic, others zero), next header = ICMPv6, 3 transport bytes in the request; layer-4 reply of 8 arbitrary bytes or silence (ICMPv6: echo-style reply, or type 136 + solicited target); self-IP list absent or {a4,a6} symbolic; deny list absent or {d6} symbolic
 //# stubs: layer_4::{icmpv6,tcp,udp}::repl -> None or a transport packet of 8 arbitrary bytes (UDP: length field = 8; ICMPv6 NA: the returned target belongs to the self-IP list when one is configured - lemma c05_nd_*)
 //# out: extension headers (not parsed by the implementation); other reply lengths
 //# known: c02.icmpv6_echo_foreign_destination
@@ -320,4 +331,67 @@ fn c01_ipv6_udp_short() {
 #[kani::stub(crate::layer_4::udp::repl, crate::verif_util::l4_udp_stub)]
 fn c01_ipv6_icmp_short() {
     ipv6_case(Some(58), 3, 8)
+}
+
+fn ipv6_events(proto: Option<u8>, m: usize, n: usize) {
+    let mut buf: [u8; 64] = kani::any();
+    match proto {
+        Some(p) => buf[6] = p,
+        None => kani::assume(buf[6] != 58 && buf[6] != 6 && buf[6] != 17),
+    }
+    let ip_req = Ipv6Packet::new(&buf[..40 + m]).unwrap();
+    let a6 = any_ip6();
+    let mut s_set = HashSet::new();
+    s_set.insert(IpAddr::V6(a6));
+    let s_on: bool = kani::any();
+    let mut masscanned = ms_counting([0, 0], any_mac());
+    if s_on {
+        masscanned.self_ip_list = Some(&s_set);
+        l4_rec().cfg_s6 = Some(a6);
+    }
+    l4_rec().cfg_len = n;
+    let mut ci = ClientInfo::new();
+    let r = repl(&ip_req, &masscanned, &mut ci);
+    assert!(balanced(L_IPV6, r.is_some()), "C20: IPv6 layer did not log exactly one recv and one terminal event (send iff answered)");
+    let shown = ev(L_IPV6).ci_recv.unwrap();
+    assert!(shown.ip.src == Some(IpAddr::V6(ip_req.get_source())) && shown.ip.dst == Some(IpAddr::V6(ip_req.get_destination())), "C20: addresses shown to the logger are not the packet's");
+    if l4_rec().calls == 1 {
+        assert!(l4_rec().seq_at_call > ev(L_IPV6).seq_recv && l4_rec().seq_at_call < ev(L_IPV6).seq_term, "C20: inner layer not nested inside the IPv6 events");
+    }
+    kani::cover!(r.is_some(), "answered");
+    kani::cover!(r.is_none() && l4_rec().calls == 0, "dropped before layer 4");
+}
+
+//# harness: c20_ipv6_events_udp
+//# props: C20
+//# tier: quick
+//# encodes: layer_3::ipv6::repl
+//# encodes: logger::MetaLogger::{ipv6_recv,ipv6_send,ipv6_drop}
+//# bounds: 40-byte IPv6 header symbolic, next header UDP, 8 transport bytes; layer-4 reply of 8 bytes or silence; self-IP list absent or {a6}
+//# stubs: layer_4::{icmpv6,tcp,udp}::repl -> contract stubs recording the event sequence number at call time
+//# cover: answered
+//# cover: dropped before layer 4
+#[kani::proof]
+#[kani::unwind(26)]
+#[kani::stub(crate::layer_4::icmpv6::repl, crate::verif_util::l4_icmpv6_stub)]
+#[kani::stub(crate::layer_4::tcp::repl, crate::verif_util::l4_tcp_stub)]
+#[kani::stub(crate::layer_4::udp::repl, crate::verif_util::l4_udp_stub)]
+fn c20_ipv6_events_udp() {
+    ipv6_events(Some(17), 8, 8)
+}
+
+//# harness: c20_ipv6_events_icmp
+//# props: C20
+//# tier: thorough
+//# encodes: layer_3::ipv6::repl
+//# bounds: next header ICMPv6, 8 transport bytes, layer-4 reply of 8 bytes (echo or NA + target) or silence
+//# stubs: layer_4::{icmpv6,tcp,udp}::repl -> contract stubs
+//# cover: answered
+#[kani::proof]
+#[kani::unwind(26)]
+#[kani::stub(crate::layer_4::icmpv6::repl, crate::verif_util::l4_icmpv6_stub)]
+#[kani::stub(crate::layer_4::tcp::repl, crate::verif_util::l4_tcp_stub)]
+#[kani::stub(crate::layer_4::udp::repl, crate::verif_util::l4_udp_stub)]
+fn c20_ipv6_events_icmp() {
+    ipv6_events(Some(58), 8, 8)
 }
